@@ -29,11 +29,22 @@ class InjectedFault(OSError):
     pass
 
 
+class InjectedEncodeFault(UnicodeError):
+    """what f.write raises for text the target encoding cannot carry (a ValueError, not an OSError)"""
+
+
+class InjectedInterrupt(KeyboardInterrupt):
+    """the process is interrupted in the middle of the write"""
+
+
+FAULT_CLASSES = (InjectedFault, InjectedEncodeFault, InjectedInterrupt)
+
+
 class Injector:
     """Patches `open`, and `replace` as seen by doctrans.emit; counts write-opens; raises at (k, i)."""
 
-    def __init__(self, root, fault=None):
-        self.root, self.fault = root, fault
+    def __init__(self, root, fault=None, cls=InjectedFault):
+        self.root, self.fault, self.cls = root, fault, cls
         self.log = []  # filenames opened for writing, in order
         self.k = -1
 
@@ -50,11 +61,11 @@ class Injector:
 
             def write(self, s):
                 if inj.fault == (self.k, 1):
-                    raise InjectedFault("after open")
+                    raise inj.cls("after open")
                 if inj.fault == (self.k, 2):
                     self.f.write(s[: len(s) // 2])
                     self.f.flush()
-                    raise InjectedFault("mid-write")
+                    raise inj.cls("mid-write")
                 return self.f.write(s)
 
             def __enter__(self):
@@ -69,13 +80,13 @@ class Injector:
                 inj.k += 1
                 inj.log.append(str(filename))
                 if inj.fault == (inj.k, 0):
-                    raise InjectedFault("before open")
+                    raise inj.cls("before open")
                 return W(real_open(filename, mode, *a, **kw), inj.k)
             return real_open(filename, mode, *a, **kw)
 
         def fake_replace(src, dst):
             if inj.fault == (inj.k, 3):
-                raise InjectedFault("at replace")
+                raise inj.cls("at replace")
             return real_replace(src, dst)
 
         self.had_replace = hasattr(E, "replace")
@@ -108,7 +119,7 @@ def run_sync(cfg, root, via_cli):
         return ("ok", None)
     except SystemExit as e:
         return ("usage-error" if e.code == 2 else "exit", e.code)
-    except InjectedFault as e:
+    except FAULT_CLASSES as e:
         return ("fault", str(e))
     except Exception as e:
         return ("raises", exc_kind(e))
@@ -310,14 +321,18 @@ class C20(Prop):
             shutil.rmtree(root, ignore_errors=True)
         if outcome[0] != "ok":
             return res
+        salt = sum(map(ord, json.dumps(cfg, sort_keys=True, default=repr))) % 3
         for k in range(len(log)):
             for i in range(4):
                 root = tempfile.mkdtemp(prefix="c20f")
                 try:
                     projgen.materialise(cfg, root)
-                    with Injector(root, fault=(k, i)) as inj:
+                    # the error class rotates over the fault positions (offset per case): an OSError, the
+                    # ValueError a write raises for unencodable text, an interrupt
+                    cls = FAULT_CLASSES[(k * 4 + i + salt) % len(FAULT_CLASSES)]
+                    with Injector(root, fault=(k, i), cls=cls) as inj:
                         oc = run_sync(cfg, root, c["via_cli"])
-                    res["runs"].append({"fault": [k, i], "outcome": oc, "after": projgen.snapshot(root)})
+                    res["runs"].append({"fault": [k, i], "cls": cls.__name__, "outcome": oc, "after": projgen.snapshot(root)})
                 finally:
                     shutil.rmtree(root, ignore_errors=True)
         # conversion-step faults: the n-th rendering (to_code inside emit.file) raises
@@ -462,19 +477,19 @@ class C20(Prop):
         for rrun in obs["runs"]:
             after = rrun["after"]
             if rrun["outcome"][0] != "fault":
-                fails.append({"what": "injected fault did not surface as the I/O error", "fault": rrun["fault"], "outcome": list(rrun["outcome"])})
+                fails.append({"what": "injected fault did not surface as the I/O error", "fault": rrun["fault"], "error_class": rrun.get("cls"), "outcome": list(rrun["outcome"])})
             for n in set(after) | set(obs["before"]):
                 a, b, f = after.get(n), obs["before"].get(n), obs["final"].get(n)
                 if a == b:
                     continue
                 if n not in obs["before"] and n not in obs["final"]:
-                    fails.append({"what": "stray file left behind", "fault": rrun["fault"], "file": n})
+                    fails.append({"what": "stray file left behind", "fault": rrun["fault"], "error_class": rrun.get("cls"), "file": n})
                 elif a is None:
-                    fails.append({"what": "file deleted by a failed run", "fault": rrun["fault"], "file": n})
+                    fails.append({"what": "file deleted by a failed run", "fault": rrun["fault"], "error_class": rrun.get("cls"), "file": n})
                 elif not parses(a):
-                    fails.append({"what": "file truncated or syntactically broken after a fault", "fault": rrun["fault"], "file": n, "content": a[:200]})
+                    fails.append({"what": "file truncated or syntactically broken after a fault", "fault": rrun["fault"], "error_class": rrun.get("cls"), "file": n, "content": a[:200]})
                 elif a != f and a not in self._intermediate(obs, n):
-                    fails.append({"what": "file neither old nor completely rewritten after a fault", "fault": rrun["fault"], "file": n})
+                    fails.append({"what": "file neither old nor completely rewritten after a fault", "fault": rrun["fault"], "error_class": rrun.get("cls"), "file": n})
         return fails
 
     def _intermediate(self, obs, n):
